@@ -8,4 +8,5 @@ var Registry = map[string]func(Args) error{
 	"mux": Mux,
 	"answer": Answer,
 	"find": Find,
+	"cer": CER,
 }
